@@ -159,7 +159,7 @@ pub fn mlpg_reference(windows: &[Vec<f64>], frames: &[(bool, Vec<(f64, f64)>)]) 
 pub struct MlpgDense;
 
 fn window_sets(t: &mut Tape) -> (String, Vec<Vec<f64>>) {
-    match t.weighted(&[4, 6, 10, 4, 4, 2, 3]) {
+    match t.weighted(&[4, 6, 10, 4, 4, 2, 3, 2, 1, 1]) {
         0 => ("static".into(), vec![WIN_STATIC.to_vec()]),
         1 => ("delta".into(), vec![WIN_STATIC.to_vec(), WIN_D3.to_vec()]),
         2 => ("delta+accel".into(), vec![WIN_STATIC.to_vec(), WIN_D3.to_vec(), WIN_A3.to_vec()]),
@@ -167,7 +167,12 @@ fn window_sets(t: &mut Tape) -> (String, Vec<Vec<f64>>) {
         4 => ("mixed3/5".into(), vec![WIN_STATIC.to_vec(), WIN_D3.to_vec(), WIN_A5.to_vec()]),
         5 => ("delta5-only".into(), vec![WIN_STATIC.to_vec(), WIN_D5.to_vec()]),
         // the widest window is not the last one
-        _ => ("mixed5/3".into(), vec![WIN_STATIC.to_vec(), WIN_D5.to_vec(), WIN_A3.to_vec()]),
+        6 => ("mixed5/3".into(), vec![WIN_STATIC.to_vec(), WIN_D5.to_vec(), WIN_A3.to_vec()]),
+        // declared width larger than the support: the span that decides which observations are
+        // dropped is the DECLARED width (exact zeros at the outer positions)
+        7 => ("zero-outer-taps-5".into(), vec![WIN_STATIC.to_vec(), vec![0.0, -0.5, 0.0, 0.5, 0.0], WIN_A3.to_vec()]),
+        8 => ("one-sided-left".into(), vec![WIN_STATIC.to_vec(), vec![-1.0, 1.0, 0.0]]),
+        _ => ("one-sided-right".into(), vec![WIN_STATIC.to_vec(), vec![0.0, -1.0, 1.0], vec![1.0, -2.0, 1.0]]),
     }
 }
 
@@ -177,7 +182,7 @@ impl Prop for MlpgDense {
         "mlpg-dense".into()
     }
     fn rule(&self) -> String {
-        "public MlpgAdjust::new(.., ModelStream{gv: None}).create(durations): 1..60 states, durations 1..8, vector length 1..4, means in [-3,3], variances in [0.05,3], window sets {static; +delta; +delta+accel (width 3); width-5; mixed 3/5; mixed 5/3 (widest window not last)}, exact +-0.0 among the means (a third of the cases); tied variances (components sharing the static variance while the dynamic ones differ, or one variance per state) in a third of the cases; in 30 % of the cases the same MlpgAdjust object first serves 1-2 other alignments of the same states (same total, reordered or shifted; or unrelated), voicing {non-MSD all voiced | random | all unvoiced | islands of 1-2 frames | voiced with short gaps}; compared with the dense solve. Non-trivial: >= 1 dynamic window and >= 2 voiced frames".into()
+        "public MlpgAdjust::new(.., ModelStream{gv: None}).create(durations): 1..60 states, durations 1..8, vector length 1..4, means in [-3,3], variances in [0.05,3], window sets {static; +delta; +delta+accel (width 3); width-5; mixed 3/5; mixed 5/3 (widest window not last); windows with exact zeros at their outer positions (declared width 5 with support 3, one-sided differences in 3 taps)}, exact +-0.0 among the means (a third of the cases); tied variances (components sharing the static variance while the dynamic ones differ, or one variance per state) in a third of the cases; in 30 % of the cases the same MlpgAdjust object first serves 1-2 other alignments of the same states (same total, reordered or shifted; or unrelated), voicing {non-MSD all voiced | random | all unvoiced | islands of 1-2 frames | voiced with short gaps}; compared with the dense solve. Non-trivial: >= 1 dynamic window and >= 2 voiced frames".into()
     }
     fn tape_len(&self, _: Tier) -> usize {
         60 * (4 * 3 * 2 * 4 + 3) + 32
